@@ -12,8 +12,8 @@ RULE = ("handler outcome (23 return values: None/False/0/negative/>255/bool/nume
         "exception shape, listener behaviour); distinct by the whole case")
 THEOREMS = ["run_status", "handler_once", "status_zero_iff", "exception_reported", "exception_reported_rendered", "renderer_failure_unreachable",
             "nothing_escapes_with_renderer"]
-TRUSTED = ["the full trace renderer (ExceptionTrace._render_exception, Highlighter, crashtest) is not modelled: 'never raises' for it is "
-           "examined by this correspondence run over the fault set (testing), see C20 for the renderer itself"]
+TRUSTED = ["the report renderer is the trace model of C20 (Proofs/RunTraceLemmas.v composes it with the run model); Run.exn carries only the "
+           "two flags the run logic reads - class name, message, frames and solutions of the exception are universally quantified inputs"]
 ASSUMPTIONS = ["SystemExit / GeneratorExit are outside the quantifier; KeyboardInterrupt maps to status 1 without a report by design"]
 
 RETS = [None, False, 0, -3, 300, True, "12", " 7 ", "abc", "", 2.7, 0.3, 0.0, "nan", "inf", [], [0], "OBJ", 255, 256, 1, -1, "0", "-0"]
